@@ -39,6 +39,7 @@ type Model struct {
 	// units (functions by role)
 	ClaimSet    []*ssa.Function // own the critical section containing claim.Store(true)
 	ClaimStoreFns []*ssa.Function // contain claim.Store(true)
+	nonNilDepth int
 	ClaimClear  []*ssa.Function // contain claim.Store(false), constructor excluded
 	StopCores   []*ssa.Function // claim-clear units that also invoke the election cancel
 	StopUnits   []*ssa.Function // stop cores and the exported methods that reach one
@@ -425,11 +426,24 @@ func (m *Model) fieldStoredBy(method string) string {
 		return ""
 	}
 	found := map[string]bool{}
-	for _, b := range f.Blocks {
-		for _, in := range b.Instrs {
-			if s, ok := in.(*ssa.Store); ok {
-				if fld, ok := m.implField(s.Addr); ok {
-					found[fld] = true
+	// the method itself and the closures it creates (a registration written as
+	// setCallbacks(func() { e.onPromote = fn }) stores in a closure)
+	var fns []*ssa.Function
+	var addFn func(g *ssa.Function)
+	addFn = func(g *ssa.Function) {
+		fns = append(fns, g)
+		for _, a := range g.AnonFuncs {
+			addFn(a)
+		}
+	}
+	addFn(f)
+	for _, g := range fns {
+		for _, b := range g.Blocks {
+			for _, in := range b.Instrs {
+				if s, ok := in.(*ssa.Store); ok {
+					if fld, ok := m.implField(s.Addr); ok {
+						found[fld] = true
+					}
 				}
 			}
 		}
